@@ -787,6 +787,72 @@ pub mod fallback_bad {
     }
 }
 
+// ---------------------------------------------------------------- R-COMMIT
+pub mod commit {
+    use super::*;
+    use std::sync::atomic::{AtomicU32, Ordering};
+    pub struct Arena {
+        pub next: AtomicU32,
+        pub limit: usize,
+    }
+    impl Arena {
+        pub fn bad_reserve(&self, size: usize) -> Result<u32> {
+            let off = self.next.fetch_add(size as u32, Ordering::Relaxed);
+            if (off as usize).checked_add(size).map_or(true, |end| end > self.limit) {
+                return Err(ZiporaError("full"));
+            }
+            Ok(off)
+        }
+        pub fn ok_reserve(&self, size: usize) -> Result<u32> {
+            self.next
+                .fetch_update(Ordering::Relaxed, Ordering::Relaxed, |cur| {
+                    (cur as usize).checked_add(size).filter(|&e| e <= self.limit).map(|e| e as u32)
+                })
+                .map_err(|_| ZiporaError("full"))
+        }
+        pub fn ok_undo(&self, size: usize) -> Result<u32> {
+            let off = self.next.fetch_add(size as u32, Ordering::Relaxed);
+            if off as usize + size > self.limit {
+                self.next.fetch_sub(size as u32, Ordering::Relaxed);
+                return Err(ZiporaError("full"));
+            }
+            Ok(off)
+        }
+    }
+}
+
+// ---------------------------------------------------------------- R-ABA.relink
+pub mod relink {
+    use std::sync::atomic::{AtomicU64, Ordering};
+    pub struct List {
+        pub head: AtomicU64,
+        pub mem: *mut u32,
+    }
+    impl List {
+        pub fn ok_push(&self, off: u32) {
+            loop {
+                let cur = self.head.load(Ordering::Acquire);
+                unsafe { *self.mem.add(off as usize) = cur as u32 };
+                let new = ((cur >> 32).wrapping_add(1) << 32) | off as u64;
+                if self.head.compare_exchange_weak(cur, new, Ordering::Release, Ordering::Relaxed).is_ok() {
+                    return;
+                }
+            }
+        }
+        pub fn bad_push(&self, off: u32) {
+            let mut cur = self.head.load(Ordering::Acquire);
+            unsafe { *self.mem.add(off as usize) = cur as u32 };
+            loop {
+                let new = ((cur >> 32).wrapping_add(1) << 32) | off as u64;
+                match self.head.compare_exchange_weak(cur, new, Ordering::Release, Ordering::Acquire) {
+                    Ok(_) => return,
+                    Err(seen) => cur = seen,
+                }
+            }
+        }
+    }
+}
+
 // ---------------------------------------------------------------- R-VARIANT
 pub mod variant {
     pub enum Storage {
